@@ -230,6 +230,20 @@ func c15Docs() []c15Doc {
 		docs = append(docs, c15Doc{"xor-" + lang + "-nodefault", c04Prog([]int{0, 1}, -1, 2, lang).XML(""), c15RunAll(6)})
 	}
 	docs = append(docs, c15Doc{"parallel-loop", c03Prog(2, 3).XML(""), c15RunAll(12)})
+	{ // expression text padded with white space that XML does not know (ideographic space, no-break space)
+		p := &Prog{}
+		p.Node("start", "start")
+		x := p.Node("xor", "S")
+		p.Node("task", "B0")
+		p.Node("task", "B1")
+		p.Node("end", "end")
+		p.Flow("start", "S", "")
+		p.Flow("S", "B0", "\u3000c0\u00a0")
+		x.Default = p.Flow("S", "B1", "").ID
+		p.Flow("B0", "end", "")
+		p.Flow("B1", "end", "")
+		docs = append(docs, c15Doc{"unicode-space-padded-expression", p.XML(""), nil})
+	}
 	// informal condition, language attribute, all node kinds
 	{
 		p := &Prog{}
@@ -330,6 +344,7 @@ func runC15(env *Env) {
 			continue
 		}
 		pristine, _ := schema.Parse([]byte(doc.text))
+		textsBefore := c15Texts(reflect.ValueOf(d1))
 		x1, err := xml.Marshal(d1)
 		if err != nil {
 			rep.Violate("C15-marshal", cs, err.Error())
@@ -354,6 +369,11 @@ func runC15(env *Env) {
 		c15Diff("", reflect.ValueOf(d1).Elem(), reflect.ValueOf(d2).Elem(), &diffs)
 		if len(diffs) > 0 {
 			rep.Violate("C15-roundtrip", cs, "re-parsed model differs: "+strings.Join(diffs, "; "))
+		}
+		// what the engine reads (TextPayload of expressions, scripts, timers ...) is the same before serialising,
+		// after serialising (same model), and in the re-parsed model
+		if a, b, c := textsBefore, c15Texts(reflect.ValueOf(d1)), c15Texts(reflect.ValueOf(d2)); !reflect.DeepEqual(a, b) || !reflect.DeepEqual(a, c) {
+			rep.Violate("C15-roundtrip", cs, fmt.Sprintf("text payloads differ: before serialising %q, after %q, re-parsed %q", a, b, c))
 		}
 		x2, _ := xml.Marshal(d2)
 		keep = append(keep, kept{doc.name, d2, string(x2)})
@@ -412,4 +432,56 @@ func firstDiff(a, b string) int {
 		}
 	}
 	return len(a)
+}
+
+// c15Texts collects, in structure order, what every TextPayload() accessor of the model returns
+func c15Texts(v reflect.Value) (out []string) {
+	seen := map[uintptr]bool{}
+	var walk func(v reflect.Value, depth int)
+	walk = func(v reflect.Value, depth int) {
+		if depth > 40 || !v.IsValid() {
+			return
+		}
+		switch v.Kind() {
+		case reflect.Ptr:
+			if v.IsNil() {
+				return
+			}
+			if seen[v.Pointer()] {
+				return
+			}
+			seen[v.Pointer()] = true
+			if m := v.MethodByName("TextPayload"); m.IsValid() && m.Type().NumIn() == 0 && m.Type().NumOut() == 1 {
+				r := m.Call(nil)[0]
+				if r.Kind() == reflect.Ptr && !r.IsNil() && r.Elem().Kind() == reflect.String {
+					out = append(out, r.Elem().String())
+				}
+			}
+			walk(v.Elem(), depth+1)
+		case reflect.Interface:
+			if !v.IsNil() {
+				walk(v.Elem(), depth+1)
+			}
+		case reflect.Struct:
+			for i := 0; i < v.NumField(); i++ {
+				f := v.Field(i)
+				if f.CanAddr() && f.Kind() == reflect.Struct {
+					walk(f.Addr(), depth+1)
+				} else {
+					walk(f, depth+1)
+				}
+			}
+		case reflect.Slice:
+			for i := 0; i < v.Len(); i++ {
+				e := v.Index(i)
+				if e.CanAddr() && e.Kind() == reflect.Struct {
+					walk(e.Addr(), depth+1)
+				} else {
+					walk(e, depth+1)
+				}
+			}
+		}
+	}
+	walk(v, 0)
+	return
 }
